@@ -77,23 +77,31 @@ def check(an, rep, tier):
         else:
             prev = Poly.sym('r1')
             for k, c in enumerate(r.items):
-                if c.k != 'arr' or c.dims is None or len(c.dims) != 3:
+                from .common import cmp3
+                if c.k != 'arr' or c.dims is None:
+                    st, detail = 'unknown', 'core %d is %r' % (k, c)
+                    break
+                if len(c.dims) != 3:
                     st, detail = 'violation', 'core %d is %r' % (k, c)
                     break
-                if c.dims[1] is None or c.dims[1].as_int() != 2:
-                    st, detail = 'violation', 'core %d has mode size %r' % (
+                c3 = cmp3(c.dims[1], Poly.const(2))
+                if c3 != 'ok':
+                    st, detail = c3, 'core %d has mode size %r' % (
                         k, c.dims[1])
                     break
-                if c.dims[0] is None or not same(c.dims[0], prev):
-                    st, detail = 'violation', \
+                c3 = cmp3(c.dims[0], prev)
+                if c3 != 'ok':
+                    st, detail = c3, \
                         'bond %d: %r does not continue %r (outer bonds must ' \
                         'be exactly the original ranks, inner bonds must ' \
                         'chain)' % (k, c.dims[0], prev)
                     break
                 prev = c.dims[2]
-            if st == 'ok' and not same(prev, Poly.sym('r2')):
-                st, detail = 'violation', 'last bond is %r, the original ' \
-                    'right rank r2 is lost' % (prev,)
+            if st == 'ok':
+                c3 = cmp3(prev, Poly.sym('r2'))
+                if c3 != 'ok':
+                    st, detail = c3, 'last bond is %r, the original ' \
+                        'right rank r2 is lost' % (prev,)
         rep.add('S-ret', 'core.core_tt_to_qtt', 'mode size %d -> %d cores '
                 'with outer bonds (r1, r2)' % (n, q), st, detail)
         if r.k == 'list' and r.items is not None and len(r.items) == q and \
